@@ -646,7 +646,7 @@ def global_collapse(b):
     def collapse(ex, node_, *a_, **k_):
         rec.append((tuple(a_), dict(k_)))
         return outs
-    world = Obj(None, name="world", tidal_scale=R("w_scale"), density_bulk=R("w_rho"), gravity_surface=R("w_g"), radius=R("w_R"))
+    world = Obj(None, name="world", tidal_scale=R("w_scale"), density_bulk=R("w_rho"), gravity_surface=R("w_g"), radius=R("w_R"), _open=True)
     o = Obj(cls, world=world, _world=world, tidal_host=Obj(None, name="host", mass=R("host_mass")), _tidal_susceptibility=R("chi_now"), _tidal_terms_by_frequency=R("terms_now"), _use_ctl=False,
             _cpl_complex_love_by_unique_freq=R("love_now"), _ctl_complex_love_by_unique_freq=R("love_ctl"), _max_tidal_order_lvl=sp.Integer(3), _collapse_modes_func=collapse, collapse_modes_func=collapse,
             _radius=R("w_R"), radius=R("w_R"), _need_to_collapse_modes=True, **{f_: R("old" + f_) for f_ in fields})
